@@ -98,4 +98,45 @@ theorem whitelist_pinned :
     ∧ Generated.Trusted.setWhitelist = Pinned.Trusted.setWhitelist
     ∧ Generated.Trusted.setWhitelist = [] := by decide
 
+/-! ### the classifier itself, run on the real code for a one-field class per sample -/
+
+def vStr : Verdict → String
+  | .raises => "raises" | .no => "no" | .lvl .flat => "flat" | .lvl .nested => "nested"
+
+/-- the one-field class `extract/trusted.py` declares around a sample field -/
+def oneField (f : FieldDecl) : FieldDecl := .struct { name := "S", required := [], accepts := ["S"] } [("f", f)] []
+
+/-- "undef" = typedpy refuses the class declaration (e.g. a Set of unhashable items): no claim -/
+def verdictAgrees (real : String) (f : FieldDecl) : Bool :=
+  real == "undef" || vStr (verdictOf noMappers (oneField f)) == real
+
+/-- the sample class `Foo` of a ClassReference row is not FastSerializable -/
+def createdAgrees (real : String) (f : FieldDecl) : Bool :=
+  real == "undef" || (if createOk noMappers ["Foo"] (oneField f) then "yes" else "no") == real
+
+def rowBehaves (r : Generated.Trusted.Row) : Bool :=
+  match sampleDecl r.kind with
+  | none => false
+  | some f =>
+    verdictAgrees r.verdict f && verdictAgrees r.verdictArr (arrOf f)
+    && verdictAgrees r.verdictSet (.setOf false f {})
+    && verdictAgrees r.verdictOpt (.anyOf [f, .noneF]) && verdictAgrees r.verdictOptRev (.anyOf [.noneF, f])
+    && createdAgrees r.created f
+
+/-- the model's classifier `verdictOf` and `createOk` return, for every sample field bare, inside
+    Array / Set / Optional (both orders), what `_structure_simplicity_level` / `create_serializer`
+    of TODAY's source return: a branch added to, removed from or changed in the classifier changes
+    a row and breaks this obligation -/
+theorem classifier_rows_ok : Generated.Trusted.rows.all rowBehaves = true := by decide
+
+/-- the rows are not all "undef": every sample has a real bare verdict and a creation verdict -/
+theorem classifier_rows_defined :
+    (Generated.Trusted.rows.all fun r => r.verdict != "undef" && r.created != "undef" && r.verdictOpt != "undef") = true := by
+  decide
+
+/-- the classes the `isinstance` tests of the seven functions of the shortcut paths mention are the
+    ones the model was written against (a branch on a new class breaks this obligation) -/
+theorem classifier_branches_pinned :
+    Generated.Trusted.isinstanceClasses = Pinned.Trusted.isinstanceClasses := by decide
+
 end Typedpy.C10
